@@ -26,6 +26,7 @@ def install_probe():
     global _INSTALLED
     if _INSTALLED:
         return
+    import pytezos  # noqa: F401  (the package must be initialised from its root: submodules import each other)
     from pytezos.michelson.instructions.control import FailwithInstruction
     real = FailwithInstruction.__dict__['execute'].__func__
 
@@ -59,6 +60,7 @@ def with_timeout(seconds, f, *a):
 
 
 def make_context(env):
+    install_probe()
     from pytezos.context.impl import ExecutionContext
     e = dict(R.DEFAULT_ENV)
     e.update(env or {})
@@ -78,10 +80,10 @@ def _observe(item):
 def real_run(code, types, values, env):
     """Stack mode.  code / types / values: Micheline JSON (types and values top first).
     -> ('ok', [(type_expr, value_expr), ...]) | ('failwith', type_expr, value_expr) | ('error', exc class, args)"""
+    install_probe()
     from pytezos.michelson.micheline import MichelineSequence
     from pytezos.michelson.stack import MichelsonStack
     from pytezos.michelson.types.base import MichelsonType
-    install_probe()
     ctx = make_context(env)
     stack = MichelsonStack()
     for ty, v in reversed(list(zip(types, values))):
@@ -107,8 +109,8 @@ def real_run(code, types, values, env):
 
 def real_run_contract(code, param_type, storage_type, param, storage, env):
     """Contract mode through Interpreter.run_code.  -> ('ok', storage_expr) | ('failwith', ty, v) | ('error', ...)"""
-    from pytezos.michelson.repl import Interpreter
     install_probe()
+    from pytezos.michelson.repl import Interpreter
     e = dict(R.DEFAULT_ENV)
     e.update(env or {})
     script = [{'prim': 'parameter', 'args': [param_type]}, {'prim': 'storage', 'args': [storage_type]},
@@ -196,13 +198,16 @@ def only_order_differs(t, ref, real):
         return False
 
 
+BAD = object()        # "not a value of that type" (None is a legitimate value: option None)
+
+
 def read_real_value(t, expr):
-    """Micheline value produced by pytezos -> reference-domain value (order of collections kept).  None + reason
+    """Micheline value produced by pytezos -> reference-domain value (order of collections kept).  BAD + reason
     if the literal does not denote a value of the reference type t."""
     try:
         return R.parse_data(t, expr, ordered=False, check_lambda=False), None
     except R.RefError as e:
-        return None, str(e)
+        return BAD, str(e)
 
 
 def describe(ins, S):
@@ -267,7 +272,7 @@ def compare_outcomes(ref, real):
                 out.append(('C02', 'ensures.slot_type', f'slot {i}: runtime type {rt_expr} != static type `{tstr(t, 9)}`',
                             f'type {tstr(rt) if rt else "?"} for {tstr(t)}'))
             rv, why = read_real_value(t, rv_expr)
-            if rv is None:
+            if rv is BAD:
                 prop = 'C01' if type_ok else 'C02'
                 out.append((prop, 'ensures.slot_value_wellformed',
                             f'slot {i}: value {rv_expr} is not a value of static type `{tstr(t, 9)}` ({why})', 'ill-formed value'))
@@ -290,7 +295,7 @@ def compare_outcomes(ref, real):
         if rt != ref[1]:
             out.append(('C02', 'ensures.failwith_type', f'FAILWITH value type {real[1]} != `{tstr(ref[1], 9)}`', 'failwith type'))
         rv, why = read_real_value(ref[1], real[2])
-        if rv is None or not values_equal(ref[1], ref[2], rv):
+        if rv is BAD or not values_equal(ref[1], ref[2], rv):
             out.append(('C01', 'ensures.failwith_value', f'FAILWITH value {real[2]}, reference {R.data_to_micheline_safe(ref[1], ref[2])}',
                         'failwith value'))
         return out
